@@ -1,1 +1,348 @@
-// cfg(kani) child module of src/.../execution_engine.rs (see DESIGN.md §1.1)
+// cfg(kani) child module of src/execution/execution_engine.rs: ExecutionEngine::execute's dispatch,
+// the "no row => no trace" early returns (C06) and LIMIT accounting (C07), one step from an arbitrary
+// engine state.  Everything below the dispatcher is replaced by contract stubs (listed in the registry).
+#![allow(dead_code, unused_imports, unused_macros, static_mut_refs)]
+
+use std::collections::HashMap;
+use std::mem::ManuallyDrop;
+
+use crate::data_model::{Row, TableDefinition, Tables};
+use crate::execution::column_providers::HashMapColumnProvider;
+use crate::execution::aggregate_execution::AggregateExecutionEngine;
+use crate::execution::select_execution::SelectExecutionEngine;
+use crate::execution::join::JoinedTableData;
+use crate::execution::{ColumnProvider, ColumnScope, ExecutionError, ExecutionResult, ResultRow};
+use crate::model::{AggregateStatement, JoinClause, SelectStatement, Statement, Value};
+use crate::verif_kani::common::*;
+
+use super::{ExecutionConfig, ExecutionEngine, ExecutionOutput};
+
+// ---- harness <-> stub communication -------------------------------------------------------------
+static mut ADMIT: bool = false;        // does the (stubbed) extraction admit the line?
+static mut NOISE_COLS: u8 = 0;         // number of (NULL) columns of a non-admitted row
+static mut TOUCHED: bool = false;      // set by every stub that stands for "engine state was consulted / changed"
+static mut OUT_ROWS: u8 = 0;           // rows the (stubbed) select / aggregate engine returns for this line
+static mut OUT_NULLONLY: [bool; 3] = [false; 3];
+static mut TABLE: Option<&'static TableDefinition> = None;
+
+fn the_table() -> &'static TableDefinition {
+    unsafe {
+        if TABLE.is_none() {
+            let t = TableDefinition::new("t", Vec::new(), Vec::new()).unwrap();
+            TABLE = Some(Box::leak(Box::new(t)));
+        }
+        TABLE.unwrap()
+    }
+}
+
+fn stub_tables_get<'a>(_this: &'a Tables, _name: &str) -> Option<&'a TableDefinition> {
+    Some(the_table())
+}
+
+/// `TableDefinition::extract`: the row of one line - admitted (one non-NULL column) or not (0..2 NULL columns).
+fn stub_extract(_this: &TableDefinition, _line: &str) -> Row {
+    unsafe {
+        if ADMIT {
+            Row::new(vec![Value::Int(7)])
+        } else if NOISE_COLS == 0 {
+            Row::new(Vec::new())
+        } else {
+            Row::new(vec![Value::Null])
+        }
+    }
+}
+
+fn out_row(i: usize) -> Row {
+    unsafe {
+        if OUT_NULLONLY[i] { Row::new(vec![Value::Null]) } else { Row::new(vec![Value::Int(100 + i as i64)]) }
+    }
+}
+
+/// is `row` the i-th row the stub handed out?
+fn is_out_row(row: &Row, i: usize) -> bool {
+    if row.columns.len() != 1 { return false; }
+    match &row.columns[0] {
+        Value::Null => unsafe { OUT_NULLONLY[i] },
+        Value::Int(x) => (unsafe { !OUT_NULLONLY[i] }) && *x == 100 + i as i64,
+        _ => false,
+    }
+}
+
+fn stub_output() -> Option<ResultRow> {
+    unsafe {
+        let data = match OUT_ROWS {
+            0 => return None,
+            1 => vec![out_row(0)],
+            _ => vec![out_row(0), out_row(1)],
+        };
+        Some(ResultRow { data, columns: Vec::new() })
+    }
+}
+
+fn stub_select_execute<T: ColumnProvider>(_this: &mut SelectExecutionEngine, _st: &SelectStatement, _row: T) -> ExecutionResult<Option<ResultRow>> {
+    unsafe { TOUCHED = true; }
+    Ok(stub_output())
+}
+
+fn stub_aggregate_execute<T: ColumnProvider>(_this: &mut AggregateExecutionEngine, _st: &AggregateStatement, _row: T) -> ExecutionResult<Option<ResultRow>> {
+    unsafe { TOUCHED = true; }
+    Ok(stub_output())
+}
+
+fn stub_aggregate_execute_update<T: ColumnProvider>(_this: &mut AggregateExecutionEngine, _st: &AggregateStatement, _row: T) -> ExecutionResult<bool> {
+    unsafe { TOUCHED = true; }
+    Ok(true)
+}
+
+fn stub_aggregate_execute_result(_this: &mut AggregateExecutionEngine, _st: &AggregateStatement) -> ExecutionResult<ResultRow> {
+    Ok(stub_output().unwrap_or(ResultRow { data: Vec::new(), columns: Vec::new() }))
+}
+
+fn stub_execute_join<F: FnMut(HashMapColumnProvider) -> ExecutionResult<Option<ResultRow>>>(
+    _table_definition: &TableDefinition, _row: &Row, _line_value: &Value, _join_clause: &JoinClause,
+    _joined_table_data: &JoinedTableData, _allow_outer: bool, _execute: F) -> ExecutionResult<ExecutionOutput> {
+    unsafe { TOUCHED = true; }
+    Ok(ExecutionOutput::joined(stub_output()))
+}
+
+fn stub_create_columns_mapping<'a>(_t: &'a TableDefinition, _row: &'a Row, _line: &'a Value) -> HashMap<&'a str, &'a Value> where 'a: 'a {
+    unsafe { TOUCHED = true; }
+    HashMap::new()
+}
+
+fn stub_create_table_scope<'a>(_columns: HashMap<&'a str, &'a Value>) -> HashMap<ColumnScope, HashMap<&'a str, &'a Value>> where 'a: 'a {
+    HashMap::new()
+}
+
+fn stub_random_state_new() -> std::hash::RandomState {
+    unsafe { std::mem::transmute::<(u64, u64), std::hash::RandomState>((1u64, 2u64)) }
+}
+
+macro_rules! engine_proof {
+    ($(#[$m:meta])* fn $name:ident() $body:block) => {
+        #[kani::proof]
+        #[kani::unwind(2)]
+        #[kani::stub(alloc::fmt::format, crate::verif_kani::common::stub_format)]
+        #[kani::stub(std::hash::RandomState::new, stub_random_state_new)]
+        #[kani::stub(regex::Regex::new, crate::verif_kani::common::stub_regex_new)]
+        #[kani::stub(crate::data_model::Tables::get, stub_tables_get)]
+        #[kani::stub(crate::data_model::TableDefinition::extract, stub_extract)]
+        #[kani::stub(crate::execution::select_execution::SelectExecutionEngine::execute, stub_select_execute)]
+        #[kani::stub(crate::execution::aggregate_execution::AggregateExecutionEngine::execute, stub_aggregate_execute)]
+        #[kani::stub(crate::execution::aggregate_execution::AggregateExecutionEngine::execute_update, stub_aggregate_execute_update)]
+        #[kani::stub(crate::execution::aggregate_execution::AggregateExecutionEngine::execute_result, stub_aggregate_execute_result)]
+        #[kani::stub(crate::execution::join::execute_join, stub_execute_join)]
+        #[kani::stub(crate::execution::execution_engine::ExecutionEngine::create_columns_mapping, stub_create_columns_mapping)]
+        #[kani::stub(crate::execution::column_providers::HashMapColumnProvider::create_table_scope, stub_create_table_scope)]
+        $(#[$m])*
+        fn $name() $body
+    };
+}
+
+macro_rules! engine_proof3 {
+    ($(#[$m:meta])* fn $name:ident() $body:block) => {
+        #[kani::proof]
+        #[kani::unwind(3)]
+        #[kani::stub(alloc::fmt::format, crate::verif_kani::common::stub_format)]
+        #[kani::stub(std::hash::RandomState::new, stub_random_state_new)]
+        #[kani::stub(regex::Regex::new, crate::verif_kani::common::stub_regex_new)]
+        #[kani::stub(crate::data_model::Tables::get, stub_tables_get)]
+        #[kani::stub(crate::data_model::TableDefinition::extract, stub_extract)]
+        #[kani::stub(crate::execution::select_execution::SelectExecutionEngine::execute, stub_select_execute)]
+        #[kani::stub(crate::execution::aggregate_execution::AggregateExecutionEngine::execute, stub_aggregate_execute)]
+        #[kani::stub(crate::execution::aggregate_execution::AggregateExecutionEngine::execute_update, stub_aggregate_execute_update)]
+        #[kani::stub(crate::execution::aggregate_execution::AggregateExecutionEngine::execute_result, stub_aggregate_execute_result)]
+        #[kani::stub(crate::execution::join::execute_join, stub_execute_join)]
+        #[kani::stub(crate::execution::execution_engine::ExecutionEngine::create_columns_mapping, stub_create_columns_mapping)]
+        #[kani::stub(crate::execution::column_providers::HashMapColumnProvider::create_table_scope, stub_create_table_scope)]
+        $(#[$m])*
+        fn $name() $body
+    };
+}
+
+fn join_clause() -> JoinClause {
+    JoinClause { joiner_column: String::new(), joined_table: String::new(), joined_filename: String::new(), joined_column: String::new(), is_outer: kani::any() }
+}
+
+fn select_statement(limit: Option<usize>, join: bool) -> MD<Statement> {
+    ManuallyDrop::new(Statement::Select(SelectStatement {
+        projections: Vec::new(), from: String::new(), filename: None, filter: None,
+        join: if join { Some(join_clause()) } else { None }, limit, distinct: kani::any(),
+    }))
+}
+
+fn aggregate_statement(limit: Option<usize>, join: bool) -> MD<Statement> {
+    ManuallyDrop::new(Statement::Aggregate(AggregateStatement {
+        aggregates: Vec::new(), from: String::new(), filename: None, filter: None, group_by: None, having: None,
+        join: if join { Some(join_clause()) } else { None }, limit, distinct: kani::any(),
+    }))
+}
+
+fn any_limit() -> Option<usize> {
+    if kani::any() { None } else { let n: u8 = kani::any(); Some(n as usize) }
+}
+
+// ------------------------------------------------------------------------------------------------
+// C06 part 2: a line that yields no row leaves no trace - for the three dispatch paths, with and
+// without a joined table, from an arbitrary LIMIT counter: no engine is consulted, nothing is emitted,
+// the row counter does not move.
+macro_rules! noise_harness {
+    ($name:ident, $is_aggregate:expr, $update:expr, $result:expr, $join:expr) => {
+        engine_proof! {
+            fn $name() {
+                unsafe {
+                    ADMIT = false;
+                    NOISE_COLS = kani::any();
+                    kani::assume(NOISE_COLS <= 1);
+                    OUT_ROWS = kani::any();
+                    kani::assume(OUT_ROWS <= 1);
+                    TOUCHED = false;
+                }
+                let tables = ManuallyDrop::new(Tables::new());
+                let limit = any_limit();
+                let statement = if $is_aggregate { aggregate_statement(limit, $join) } else { select_statement(limit, $join) };
+                let mut engine = ManuallyDrop::new(ExecutionEngine::new(&tables, &statement));
+                let before: u8 = kani::any();
+                engine.num_output_rows = before as usize;
+                if $join { engine.joined_table_data = Some(JoinedTableData::new(the_table())); }
+                let config = ExecutionConfig { update: $update, result: $result };
+                let out = ManuallyDrop::new(engine.execute(String::new(), &config));
+                assert!(out.is_ok(), "C06 a line that yields no row is not an error");
+                assert!(unsafe { !TOUCHED }, "C06 a line that yields no row reaches no engine state");
+                if let Ok(o) = &*out {
+                    assert!(o.result_row.is_none(), "C06 a line that yields no row emits nothing");
+                }
+                assert!(engine.num_output_rows == before as usize, "C06 a line that yields no row does not move the LIMIT counter");
+                kani::cover!(unsafe { NOISE_COLS == 1 }, "noise: a NULL column reachable");
+            }
+        }
+    };
+}
+noise_harness!(c06_noise_select, false, true, true, false);
+noise_harness!(c06_noise_select_join, false, true, true, true);
+noise_harness!(c06_noise_aggregate_follow, true, true, true, false);
+noise_harness!(c06_noise_aggregate_follow_join, true, true, true, true);
+noise_harness!(c06_noise_aggregate_batch, true, true, false, false);
+noise_harness!(c06_noise_aggregate_batch_join, true, true, false, true);
+
+/// and an admitted line does reach the engine (the stubs are live; guards against a vacuous part 2)
+engine_proof! {
+    fn c06_admitted_reaches_engine() {
+        unsafe { ADMIT = true; OUT_ROWS = 1; OUT_NULLONLY = [false; 3]; TOUCHED = false; }
+        let tables = ManuallyDrop::new(Tables::new());
+        let statement = select_statement(None, false);
+        let mut engine = ManuallyDrop::new(ExecutionEngine::new(&tables, &statement));
+        let out = ManuallyDrop::new(engine.execute(String::new(), &ExecutionConfig::default()));
+        assert!(unsafe { TOUCHED }, "C06 an admitted line is handed to the select engine");
+        if let Ok(o) = &*out { assert!(o.result_row.is_some(), "C06 the select engine's row is passed on"); }
+        kani::cover!(out.is_ok(), "admitted: ok reachable");
+    }
+}
+
+// ------------------------------------------------------------------------------------------------
+// C07: LIMIT n as a one-step invariant of the select path.  Pre-state: `emitted` rows have been handed
+// out so far, emitted <= n, and the executor only offers another line while the limit has not been
+// reported (emitted < n, or nothing yet for n = 0).  Post: never more than n rows in total, in the
+// engine's order, and reached_limit exactly when n rows are out.
+macro_rules! limit_step_harness {
+    ($name:ident, $join:expr, $max_rows:expr, $allow_nullonly:expr, $allow_zero:expr) => {
+        engine_proof! {
+            fn $name() {
+                let n: u8 = kani::any();
+                let emitted: u8 = kani::any();
+                if !$allow_zero { kani::assume(n >= 1); }
+                kani::assume(emitted < n || (n == 0 && emitted == 0));
+                unsafe {
+                    ADMIT = true;
+                    OUT_ROWS = kani::any();
+                    kani::assume(OUT_ROWS <= $max_rows);
+                    OUT_NULLONLY = [kani::any(), kani::any(), kani::any()];
+                    if !$allow_nullonly { kani::assume(!OUT_NULLONLY[0] && !OUT_NULLONLY[1] && !OUT_NULLONLY[2]); }
+                    TOUCHED = false;
+                }
+                let tables = ManuallyDrop::new(Tables::new());
+                let statement = select_statement(Some(n as usize), $join);
+                let mut engine = ManuallyDrop::new(ExecutionEngine::new(&tables, &statement));
+                engine.num_output_rows = emitted as usize;
+                if $join { engine.joined_table_data = Some(JoinedTableData::new(the_table())); }
+                let out = ManuallyDrop::new(engine.execute(String::new(), &ExecutionConfig::default()));
+                assert!(out.is_ok(), "C07 LIMIT accounting does not fail");
+                if let Ok(o) = &*out {
+                    let offered = unsafe { OUT_ROWS } as usize;
+                    let got = match &o.result_row { Some(r) => r.data.len(), None => 0 };
+                    let room = (n - emitted) as usize;
+                    let expected = if offered < room { offered } else { room };
+                    assert!(got == expected, "C07 exactly the first n rows are emitted (never more than the rows still allowed)");
+                    if let Some(r) = &o.result_row {
+                        // the emitted rows are the first `got` rows of the engine's output, in order
+                        if got >= 1 { assert!(is_out_row(&r.data[0], 0), "C07 emitted rows are a prefix of the unlimited output"); }
+                    }
+                    assert!(o.reached_limit == (emitted as usize + got >= n as usize), "C07 the limit is reported exactly when n rows are out");
+                }
+                kani::cover!(emitted + 1 == n && unsafe { OUT_ROWS } >= 1, "limit: n-th row reachable");
+            }
+        }
+    };
+}
+limit_step_harness!(c07_limit_step_select, false, 1, false, false);
+limit_step_harness!(c07_limit_step_select_nullonly, false, 1, true, false);
+limit_step_harness!(c07_limit_step_select_zero, false, 1, false, true);
+limit_step_harness!(c07_limit_step_join, true, 1, false, false);
+
+/// without LIMIT nothing is cut and the limit is never reported
+engine_proof! {
+    fn c07_no_limit_step() {
+        unsafe {
+            ADMIT = true;
+            OUT_ROWS = kani::any();
+            kani::assume(OUT_ROWS <= 1);
+            OUT_NULLONLY = [kani::any(), kani::any(), kani::any()];
+        }
+        let tables = ManuallyDrop::new(Tables::new());
+        let join: bool = kani::any();
+        let statement = select_statement(None, join);
+        let mut engine = ManuallyDrop::new(ExecutionEngine::new(&tables, &statement));
+        let before: u8 = kani::any();
+        engine.num_output_rows = before as usize;
+        if join { engine.joined_table_data = Some(JoinedTableData::new(the_table())); }
+        let out = ManuallyDrop::new(engine.execute(String::new(), &ExecutionConfig::default()));
+        if let Ok(o) = &*out {
+            let got = match &o.result_row { Some(r) => r.data.len(), None => 0 };
+            assert!(got == unsafe { OUT_ROWS } as usize, "C07 without LIMIT every row is emitted");
+            assert!(!o.reached_limit, "C07 without LIMIT the limit is never reported");
+        }
+        kani::cover!(out.is_ok(), "no limit: ok reachable");
+    }
+}
+
+/// batch aggregates: the final table is cut to its first n rows, in order
+engine_proof! {
+    fn c07_aggregate_result_truncated() {
+        unsafe {
+            OUT_ROWS = kani::any();
+            kani::assume(OUT_ROWS <= 1);
+            OUT_NULLONLY = [kani::any(), kani::any(), kani::any()];
+        }
+        let tables = ManuallyDrop::new(Tables::new());
+        let limit = any_limit();
+        let statement = aggregate_statement(limit, false);
+        let mut engine = ManuallyDrop::new(ExecutionEngine::new(&tables, &statement));
+        let out = ManuallyDrop::new(engine.execute(String::new(), &ExecutionConfig::aggregate_result()));
+        assert!(out.is_ok(), "C07 the final aggregate table is produced");
+        if let Ok(o) = &*out {
+            let offered = unsafe { OUT_ROWS } as usize;
+            let expected = match limit { Some(n) if n < offered => n, _ => offered };
+            let got = match &o.result_row { Some(r) => r.data.len(), None => 0 };
+            assert!(got == expected, "C07 an aggregate query keeps the first n groups of the full result");
+            if let Some(r) = &o.result_row {
+                if got >= 1 { assert!(is_out_row(&r.data[0], 0), "C07 kept groups are a prefix of the full result"); }
+                if got >= 2 { assert!(is_out_row(&r.data[1], 1), "C07 kept groups are a prefix of the full result"); }
+            }
+        }
+        kani::cover!(unsafe { OUT_ROWS } == 1, "aggregate result: a row reachable");
+    }
+}
+
+#[cfg(test)]
+#[path = "/verif/.cache/playback/execution_engine.rs"]
+mod playback_gen;
